@@ -70,6 +70,15 @@ def dRAhalf (dec delta : F) : F :=
   else if 0 < c then minF (twoPi : F) (absF (delta / c))
   else (twoPi : F)
 
+/-- the same with the cap (the literal `2*np.pi` in `np.amin([np.repeat(2*np.pi, K), …])`) as a
+parameter: the driver runs it with the value found in the current source; `Proofs/EvSelCrit` shows
+that every cap `> π` gives the same decisions (the RA distance never exceeds `π`) and that `π` does not -/
+def dRAhalfCap (cap dec delta : F) : F :=
+  let c := cosfact dec delta
+  if c < 0 then minF cap (absF (delta / c))
+  else if 0 < c then minF cap (absF (delta / c))
+  else cap
+
 /-- RA distance as coded in `SpatialBoxEventSelectionMethod` -/
 def raDistBox (srcRa evRa : F) : F :=
   let d := absF (evRa - srcRa)
@@ -81,6 +90,13 @@ def raDistMod [FloorMod F] (srcRa evRa : F) : F :=
 
 def inRABand [FloorMod F] (srcRa srcDec delta evRa : F) : Bool :=
   decide (raDistMod srcRa evRa < dRAhalf srcDec delta)
+
+def inRABandCap [FloorMod F] (cap srcRa srcDec delta evRa : F) : Bool :=
+  decide (raDistMod srcRa evRa < dRAhalfCap cap srcDec delta)
+
+/-- the RA part of the box criterion, cap as parameter -/
+def inBoxRaCap (cap srcRa srcDec delta evRa : F) : Bool :=
+  decide (raDistBox srcRa evRa < dRAhalfCap cap srcDec delta)
 
 def inBox (srcRa srcDec delta evRa evDec : F) : Bool :=
   decide (raDistBox srcRa evRa < dRAhalf srcDec delta) && inDecBand srcDec delta evDec
